@@ -93,6 +93,25 @@ def rand_lts_case(rng, maxn=8, default=False, minn=1, maxlabels=3):
     part = rand_partition(rng, n)
     return LtsCase(n, es, part, rand_preorder(rng, len(part)))
 
+def parallel_edges_case(rng):
+    """few labels, MANY parallel (duplicated) edges and a coarse initial partition with a small block relation: the engine's per-block counters
+    then hold values >= 2 for a single successor and whole counter rows collapse into one entry while blocks are still being split (the
+    shortcut paths of the shared, reference-counted counter rows)"""
+    n = rng.randint(4, 8)
+    nl = 1 if rng.random() < 0.7 else 2
+    base = rand_edges(rng, n, nl, rng.randint(n, 2 * n), dup=0.0)
+    es = []
+    for e in base:
+        es.append(e)
+        while rng.random() < 0.4: es.append(e)
+    rng.shuffle(es)
+    if rng.random() < 0.25: return LtsCase(n, es)
+    k = rng.randint(2, 3)
+    part = rand_partition(rng, n, k)
+    rel = [(i, i) for i in range(len(part))]
+    if rng.random() < 0.4: rel = rand_preorder(rng, len(part))
+    return LtsCase(n, es, part, rel)
+
 def all_partitions(n):
     """all set partitions of 0..n-1 (as lists of blocks)"""
     if n == 0:
